@@ -26,12 +26,88 @@ def parse_list(s):
     return re.findall(r'"([^"]*)"', s or "")
 
 
+def access_tops(report):
+    """(function, file:line) of the innermost frame of each of the two conflicting accesses of a race report"""
+    tops = []
+    lines = report.splitlines()
+    for i, l in enumerate(lines):
+        if re.match(r"\s*(Previous )?(read|write|Read|Write|atomic read|atomic write)( at| of) ", l.strip(), re.I) and i + 2 < len(lines):
+            tops.append((lines[i + 1].strip(), lines[i + 2].strip().split(" +")[0]))
+    return tops
+
+
+def access_stacks(report):
+    """the frames (function and file lines) of the two conflicting accesses"""
+    out, cur = [], None
+    for l in report.splitlines():
+        t = l.strip()
+        if re.match(r"(Previous )?(read|write|atomic read|atomic write)( at| of) ", t, re.I):
+            cur = []
+            out.append(cur)
+            continue
+        if t.startswith("Goroutine") or not t:
+            cur = None if t.startswith("Goroutine") else cur
+            continue
+        if cur is not None:
+            cur.append(t)
+    return out
+
+
+def race_reports(chk, seed, n):
+    """go race detector on generated inputs (parallel runs, multi-stop units, hard windows): one replay object per kind of report"""
+    ok, l = C.build_harness(race=True)
+    chk.ob("race-detector build of the harness", ok, l[-400:], breaks=False)
+    out = []
+    if not ok:
+        return out
+    cases = S.make_solve_cases(seed * 31 + 14, n, settings, feats={"precedence": True, "windows": True})
+    # larger single-stop inputs with hard windows: the search falls back to its sorted candidate list (pooled buffers)
+    big = S.make_solve_cases(seed * 31 + 1414, max(8, n // 4), lambda rng, m: dict(settings(rng, m), iterations=6000, duration_ms=6000, det=0, starts=1),
+                             size="large", feats={"precedence": False, "windows": True, "capacity": False, "maxwait_stop": False,
+                                                   "maxwait_veh": False, "maxstops": False, "maxdist": False, "attrs": False})
+    for c in big:
+        c["id"] = "b" + c["id"]
+    cases += big
+    for fn in os.listdir(C.BUILD):
+        if fn.startswith("race_c14"):
+            os.remove(os.path.join(C.BUILD, fn))
+    runs, rc, err = S.run_solve(cases, "c14", timeout=3000, race=True)
+    reports = []
+    for fn in os.listdir(C.BUILD):
+        if fn.startswith("race_c14"):
+            reports += open(os.path.join(C.BUILD, fn)).read().split("==================")
+    reports = [r for r in reports if "DATA RACE" in r]
+    kinds = {}
+    for r in reports:
+        tops = access_tops(r)
+        st = access_stacks(r)
+        through = lambda name: [any(name in f for f in s_) for s_ in st]  # noqa: E731
+        agg, wrk = through("parallelSolverImpl).Solve.func3"), through("parallelSolverImpl).Solve.func2.1")
+        if len(st) == 2 and ((agg[0] and wrk[1]) or (agg[1] and wrk[0])):
+            # the aggregator goroutine against a worker goroutine: the unsynchronised hand-off of bestSolution
+            # (the variable itself and everything reachable from the solution it points to)
+            shape = {"kind": "racy_var", "function": "parallelSolverImpl.Solve", "var": "bestSolution"}
+        elif any("solution_sequence_generator.go" in f or "SequenceGeneratorChannel" in f for s_ in st for f in s_) and \
+                all("math/rand" in t[0] or "math/rand" in t[1] for t in tops):
+            shape = {"kind": "random_in_goroutine", "function": "SequenceGeneratorChannel"}
+        else:
+            shape = {"kind": "race_report", "top": tops}
+        k = json.dumps(shape, sort_keys=True)
+        if k not in kinds:
+            kinds[k] = r
+            out.append({"kind": "schedule", "what": "race detector report", "finding_shape": shape, "report": r[:3000]})
+    chk.ev.cov["race_detector_reports"] = len(reports)
+    chk.ev.cov["race_report_kinds"] = list(kinds)
+    return out
+
+
 def run(tier, seed, replay=None):
     chk = FW.Check(PID, tier, seed)
     if not chk.builds(model=False, harness=True, skeletons=True):
         return chk.finish()
     chk.proofs()
     chk.oblig("O_C14")
+    chk.oblig("O_C14_pool")     # sync.Pool buffers: no use after Put on any path of any borrower
     ev = C.run_oblig("O_C14_eval")
     chk.ob("Oblig/O_C14_eval.v evaluates (vm_compute) the lockset analysis on the regenerated skeletons", ev["ok"], ev["log"][-400:])
     racy = {}
@@ -53,34 +129,14 @@ def run(tier, seed, replay=None):
                        "samples": [ev["evals"]],
                        "search_description": "quick: static only; thorough: go race detector on generated inputs"})
     if tier == "thorough":
-        ok, l = C.build_harness(race=True)
-        chk.ob("race-detector build of the harness", ok, l[-400:])
-        if ok:
-            cases = S.make_solve_cases(seed * 31 + 14, 30, settings, feats={"precedence": True, "windows": True})
-            for fn in os.listdir(C.BUILD):
-                if fn.startswith("race_c14"):
-                    os.remove(os.path.join(C.BUILD, fn))
-            runs, rc, err = S.run_solve(cases, "c14", timeout=3000, race=True)
-            reports = []
-            for fn in os.listdir(C.BUILD):
-                if fn.startswith("race_c14"):
-                    reports += open(os.path.join(C.BUILD, fn)).read().split("==================")
-            reports = [r for r in reports if "DATA RACE" in r]
-            kinds = {}
-            for r in reports:
-                if "solution_sequence_generator.go" in r or "math/rand" in r:
-                    shape = {"kind": "random_in_goroutine", "function": "SequenceGeneratorChannel"}
-                elif "solve_solver_parallel.go" in r and ("Solve.func2.1" in r or "Solve.func3" in r):
-                    shape = {"kind": "racy_var", "function": "parallelSolverImpl.Solve", "var": "bestSolution"}
-                    if re.search(r"solve_solver_parallel.go:32[3-9]", r):
-                        shape["var"] = "solutions"
-                else:
-                    shape = {"kind": "race_report", "top": r.strip().splitlines()[1:4]}
-                k = json.dumps(shape, sort_keys=True)
-                if k not in kinds:
-                    kinds[k] = r
-                    chk.violation({"kind": "schedule", "what": "race detector report", "finding_shape": shape, "report": r[:3000]})
-            chk.ev.cov["race_detector_reports"] = len(reports)
-            chk.ev.cov["race_report_kinds"] = list(kinds)
+        for obj in race_reports(chk, seed, 30):
+            chk.violation(obj)
     chk.ev.assume("lockset discipline: happens-before through channels is not credited except goroutine start and WaitGroup join in the function body; races inside callees not captured by the skeleton are left to the race detector (thorough)")
-    return chk.finish()
+
+    def search():
+        # a broken obligation and no concrete schedule at hand: ask the race detector for one
+        for obj in race_reports(chk, seed, 12):
+            if chk.match_known(obj) is None:
+                return obj
+        return None
+    return chk.finish(search if tier == "quick" else None)
